@@ -1249,7 +1249,7 @@ fn c06_concurrent(run: &Run, thorough: bool) {
   }
   par_for_each(&items, |_, (h, bound)| {
     IMG.with(|i| *i.borrow_mut() = Some(ImgState::default()));
-    let xc = ExploreCfg { bound: *bound, hb: false, drain: false, prop_of: none, max_execs: 2_000_000, cache: false };
+    let xc = ExploreCfg { bound: *bound, hb: false, drain: false, prop_of: none, max_execs: 2_000_000, cache: false, stale: 0, spur: 0 };
     let st = explore(run, h, &xc, "C06");
     scheds.fetch_add(st.execs, std::sync::atomic::Ordering::Relaxed);
     let got = IMG.with(|i| i.borrow_mut().take()).unwrap_or_default();
@@ -1273,7 +1273,7 @@ fn replay_c06_sched(case: &Value) -> i32 {
   let sched: Vec<u8> = serde_json::from_value(case["schedule"].clone()).expect("schedule");
   let event = case["event"].as_u64().unwrap_or(0);
   IMG.with(|i| *i.borrow_mut() = Some(ImgState::default()));
-  let o = ExecOpts { tracing: false, hash_states: false, hb: false, drain: false, cache: false, bounded: true };
+  let o = ExecOpts { tracing: false, hash_states: false, hb: false, drain: false, cache: false, bounded: true, stale: 0, spur: 0 };
   let _ = run_one(&h, &sched, &o);
   let got = IMG.with(|i| i.borrow_mut().take()).unwrap_or_default();
   let run = Run::new("C06", Tier::Quick, "fault_enumeration");
